@@ -22,6 +22,12 @@ func MPCL(t *rt.Tape) (string, [][]int) {
 	return g.program()
 }
 
+// MPCLLarge generates a program of the family with more than 65535 live wires (see large).
+func MPCLLarge(t *rt.Tape) (string, [][]int) {
+	g := &mgen{t: t}
+	return g.large()
+}
+
 type mtype struct {
 	kind  int // 0 uint, 1 int, 2 bool, 3 array of uint
 	bits  int
@@ -75,6 +81,11 @@ func (g *mgen) newStruct() (string, []mvar, int) {
 			kind = 1 // a signed member: its callers pass negative numbers
 		}
 		f := mvar{name: fmt.Sprintf("f%d", i), typ: mtype{kind: kind, bits: w}}
+		if n := 2 + g.ch(3); g.ch(4) == 0 && total-w+8*n <= 64 {
+			// a byte-array member (a key, a nonce): callers that pass Go values may pass fewer elements
+			total += 8*n - w
+			f.typ = mtype{kind: 3, bits: 8, count: n}
+		}
 		fields = append(fields, f)
 		fmt.Fprintf(&sb, "\t%s %s\n", f.name, f.typ)
 	}
@@ -87,7 +98,7 @@ func (g *mgen) newStruct() (string, []mvar, int) {
 // useStruct registers the fields of struct value v as variables.
 func (g *mgen) useStruct(v string, fields []mvar, ro bool) {
 	for _, f := range fields {
-		g.vars = append(g.vars, mvar{name: v + "." + f.name, typ: f.typ, ro: ro})
+		g.vars = append(g.vars, mvar{name: v + "." + f.name, typ: f.typ, ro: ro || f.typ.kind == 3})
 	}
 }
 
@@ -576,6 +587,9 @@ func (g *mgen) large() (string, [][]int) {
 		// the inputs (constants, evaluator input, computed values) sit exactly
 		// on the boundary between the 16-bit and the 32-bit wire-id encoding
 		n := 2030 + g.ch(22)
+		if g.ch(3) == 0 {
+			n = 2049 + g.ch(600) // an argument that reaches well into the second 64Ki page of wires
+		}
 		k := []int{32, 64, 100, 150, 200, 230, 280, 17}[g.ch(8)]
 		if g.ch(3) == 0 {
 			k = 8 + g.ch(300)
